@@ -18,7 +18,7 @@ def nontrivial(l):
 
 def run(ctx):
     return core.simple_check(
-        ctx, jobs,
+        ctx, jobs, distribution=core.field_distribution(("S ",), ["cfg", "hr", "pre"], numeric=()),
         rule="seeded random: a haystack, a pattern of 0-3 atoms of every kind and polarity built from pieces of the haystack (so most match; one case in 300 has 1300-2000 matching atoms, a total "
              "beyond 65535), parsed under a "
              "random CaseMatching x Normalization; one Matcher shared by all cases (its flags are whatever the previous atom left); Pattern::score, "
